@@ -25,6 +25,7 @@ type QCfg struct {
 	BigPct      int  // percentage of events larger than a page
 	LagMax      int  // the consumer lets at most this many events pile up (0: no limit)
 	FillUp      bool // producer runs until the file is full, then the consumer drains
+	RecordIO    bool // record the I/O calls of the file (crash points)
 	MidReopen   int  // percentage of chunked events after whose first flushed part the queue is closed and reopened
 }
 
@@ -144,6 +145,7 @@ func consume(e *qenv.Env, rng *rand.Rand, n int, ack bool) int {
 func RunQueueHistory(c QCfg) (tr *core.Trace, env *qenv.Env) {
 	rng := rand.New(rand.NewSource(c.Seed))
 	e := qenv.New(c.Name, txfile.Options{PageSize: c.PageSize, MaxSize: c.MaxPages * uint64(c.PageSize)}, c.WriteBuffer)
+	e.RecordIO = c.RecordIO
 	tr = &core.Trace{Name: c.Name, Meta: c.String()}
 	env = e
 	defer func() {
@@ -354,4 +356,117 @@ func pqSample(r *core.Run, traces []*core.Trace) {
 			return
 		}
 	}
+}
+
+// RunFillDrain runs fill-to-error / drain cycles on a small bounded file.
+func RunFillDrain(c QCfg, cycles int) (tr *core.Trace, env *qenv.Env) {
+	rng := rand.New(rand.NewSource(c.Seed))
+	e := qenv.New(c.Name, txfile.Options{PageSize: c.PageSize, MaxSize: c.MaxPages * uint64(c.PageSize)}, c.WriteBuffer)
+	tr = &core.Trace{Name: c.Name, Meta: c.String() + fmt.Sprintf(" cycles=%d", cycles)}
+	env = e
+	defer func() {
+		if p := recover(); p != nil {
+			e.Emit(core.Event{"ev": "Panic", "msg": fmt.Sprint(p), "stack": core.ShortStack()})
+		}
+		tr.Events = e.Events()
+	}()
+	if err := e.Open(true); err != nil {
+		return
+	}
+	for cy := 0; cy < cycles; cy++ {
+		// fill until an operation reports that the file is full
+		full := false
+		for k := 0; k < 4000 && !full; k++ {
+			if err := produce(e, rng, c); err != nil {
+				full = true
+			}
+			if rng.Intn(5) == 0 {
+				if err := e.Flush(); err != nil {
+					full = true
+				}
+			}
+		}
+		if !full {
+			e.Emit(core.Event{"ev": "Note", "what": "file did not fill up"})
+		}
+		e.Counters()
+		// the consumer drains (part of) the queue: reading and ACK must work on the full file
+		portion := 1 + rng.Intn(4) // drain 1/portion .. everything
+		for round := 0; round < 2000; round++ {
+			got := consume(e, rng, 1+rng.Intn(12), true)
+			e.Counters()
+			if got == 0 {
+				break
+			}
+			if portion > 1 && rng.Intn(portion*6) == 0 {
+				break
+			}
+		}
+		// a later call flushes what the producer still holds in its buffer
+		e.Flush()
+		e.Counters()
+		if rng.Intn(7) == 0 {
+			if err := e.Reopen(); err != nil {
+				return
+			}
+			e.Counters()
+		}
+	}
+	e.Flush()
+	for k := 0; k < 3000; k++ {
+		if consume(e, rng, 50, true) == 0 {
+			break
+		}
+	}
+	e.Counters()
+	e.Close()
+	return
+}
+
+// CheckC12: the queue reclaims space, reports full without loss, can always be drained.
+func CheckC12(r *core.Run) {
+	r.Rule = "fill-to-error / drain cycles on small bounded files (64..256 pages, page sizes 1024/4096, write buffers 0/16KiB, event-size mixes incl. multi-page events); PQTrace.tla judges: errors only when the file is full and without loss (the buffered events are delivered in order after space was freed), reading and ACK succeed on the full file, and after every ACK the pages held (queue header inuse, FileStats.DataAllocated) and the file extent stay within SpaceBound (span of the un-ACKed events plus the most recent ACKed event plus a constant); distinct = configurations/seeds"
+	n := r.Pick(20, 120)
+	var traces []*core.Trace
+	var mu sync.Mutex
+	var wg sync.WaitGroup
+	sem := make(chan struct{}, 12)
+	maxes := []uint64{64, 96, 128, 256, 70}
+	for i := 0; i < n; i++ {
+		c := QCfg{Name: fmt.Sprintf("c12-%d", i), Seed: r.Seed*7919 + int64(i)*104729 + 5, PageSize: 1024,
+			MaxPages: maxes[i%len(maxes)], Chunked: i%2 == 0, BigPct: []int{10, 40, 70}[i%3]}
+		if i%4 == 2 {
+			c.PageSize, c.MaxPages = 4096, 64
+		}
+		if i%3 == 1 {
+			c.WriteBuffer = 16 * 1024
+		}
+		wg.Add(1)
+		sem <- struct{}{}
+		go func(c QCfg) {
+			defer wg.Done()
+			defer func() { <-sem }()
+			done := make(chan *core.Trace, 1)
+			go func() {
+				tr, _ := RunFillDrain(c, r.Pick(6, 20))
+				done <- tr
+			}()
+			var tr *core.Trace
+			select {
+			case tr = <-done:
+			case <-time.After(180 * time.Second):
+				tr = &core.Trace{Name: c.Name, Meta: c.String(), Events: []core.Event{{"ev": "Hang", "cfg": c.String()}}}
+			}
+			mu.Lock()
+			traces = append(traces, tr)
+			mu.Unlock()
+		}(c)
+	}
+	wg.Wait()
+	for _, t := range traces {
+		r.AddDistinct(fmt.Sprint(t.Meta))
+		r.AddEvals(int64(len(t.Events)))
+	}
+	pqSample(r, traces)
+	judgePQ(r, traces, "C05", "C06")
 }
